@@ -32,7 +32,7 @@ const (
 )
 
 type opD struct {
-	K string `json:"k"`           // call | do | reply | close | adv | finish
+	K string `json:"k"`           // call | do | reply | close | adv | finish | refuse | accept
 	N int    `json:"n,omitempty"` // call: deadline tick; reply: count; adv: tick
 }
 
@@ -44,6 +44,11 @@ type desc struct {
 	Srv   string `json:"srv,omitempty"`   // stress: stall | slow | closemid | noread | normal | flaky
 	Calls []int  `json:"calls,omitempty"` // stress: timeout in ms per call, 0 = Do
 	Batch int    `json:"batch,omitempty"` // MaxBatchDelay in ms
+	RT    int    `json:"rt,omitempty"`    // stress: ReadTimeout ms (a timeout error makes pipelineWorker sleep 1 s before redialling)
+	WT    int    `json:"wt,omitempty"`    // stress: WriteTimeout ms
+	Idle  int    `json:"idle,omitempty"`  // stress: MaxIdleConnDuration ms (idle retirement and re-creation of the channels)
+	Gap   int    `json:"gap,omitempty"`   // stress: pause in ms in the middle of the burst
+	Flav  []int  `json:"flav,omitempty"`  // per call flavour: 0 GET, 1 nil response object, 2 POST with a body, 3 HEAD
 	Seed  int64  `json:"seed,omitempty"`
 	MaxP  int    `json:"maxp,omitempty"` // cap case: MaxPendingRequests
 
@@ -129,6 +134,7 @@ type server struct {
 	noread  bool
 	served  int
 	stopped bool
+	refuse  bool // dial attempts fail
 }
 
 func newServer(mode string, seed int64) *server {
@@ -139,6 +145,13 @@ func newServer(mode string, seed int64) *server {
 }
 
 func (s *server) dial(addr string) (net.Conn, error) {
+	s.mu.Lock()
+	refuse := s.refuse
+	s.mu.Unlock()
+	if refuse {
+		time.Sleep(2 * time.Millisecond) // the worker redials in a tight loop: keep it from spinning
+		return nil, errors.New("verif: connection refused")
+	}
 	pc := fasthttputil.NewPipeConns()
 	sc := &sconn{c: pc.Conn2()}
 	s.mu.Lock()
@@ -166,8 +179,11 @@ func (s *server) serve(sc *sconn) {
 				return
 			}
 			p := string(req.URI().Path())
+			if req.Header.IsHead() {
+				p = "H" + p
+			}
 			s.mu.Lock()
-			s.seen[p] = true
+			s.seen[strings.TrimPrefix(p, "H")] = true
 			s.mu.Unlock()
 			paths <- p
 		}
@@ -197,6 +213,12 @@ func (s *server) serve(sc *sconn) {
 			time.Sleep(delay)
 		}
 		resp := "HTTP/1.1 200 OK\r\nContent-Length: " + strconv.Itoa(len(p)) + "\r\n\r\n" + p
+		if strings.HasPrefix(p, "H") { // HEAD: headers only
+			resp = "HTTP/1.1 200 OK\r\nContent-Length: " + strconv.Itoa(len(p)-1) + "\r\n\r\n"
+		}
+		if mode == "garbage" && served%2 == 0 {
+			resp = "HTTP/1.1 2x0 what\r\nContent-Length: nope\r\n\r\n"
+		}
 		if (mode == "closemid" && served%3 == 0) || (mode == "flaky" && served%3 == 0) {
 			if mode == "closemid" {
 				sc.c.Write([]byte(resp[:len(resp)-2])) //nolint:errcheck
@@ -236,9 +258,16 @@ func (s *server) closeCur() {
 	}
 }
 
+func (s *server) setRefuse(b bool) {
+	s.mu.Lock()
+	s.refuse = b
+	s.mu.Unlock()
+}
+
 func (s *server) finish() {
 	s.mu.Lock()
 	s.auto = true
+	s.refuse = false
 	s.cond.Broadcast()
 	s.mu.Unlock()
 }
@@ -283,12 +312,25 @@ func classify(err error) int {
 	}
 }
 
-func startCall(pc *fasthttp.PipelineClient, path string, hasDeadline bool, deadline time.Time) *callRes {
+func startCall(pc *fasthttp.PipelineClient, path string, hasDeadline bool, deadline time.Time, flav ...int) *callRes {
+	fl := 0
+	if len(flav) > 0 {
+		fl = flav[0]
+	}
 	cr := &callRes{hasDeadline: hasDeadline, deadline: deadline, path: path, class: 8, done: make(chan struct{})}
 	go func() {
 		req := fasthttp.AcquireRequest()
 		resp := fasthttp.AcquireResponse()
 		req.SetRequestURI("http://h.test" + path)
+		switch fl {
+		case 1:
+			resp = nil // "Response is ignored if resp is nil"
+		case 2:
+			req.Header.SetMethod("POST")
+			req.SetBodyString("body-of-" + path)
+		case 3:
+			req.Header.SetMethod("HEAD")
+		}
 		var err error
 		if hasDeadline {
 			err = pc.DoDeadline(req, resp, deadline)
@@ -297,7 +339,12 @@ func startCall(pc *fasthttp.PipelineClient, path string, hasDeadline bool, deadl
 		}
 		cr.ret = time.Now()
 		cr.class = classify(err)
-		cr.echo = err == nil && string(resp.Body()) == path
+		switch fl {
+		case 1, 3:
+			cr.echo = err == nil // no body to compare
+		default:
+			cr.echo = err == nil && string(resp.Body()) == path
+		}
 		close(cr.done)
 	}()
 	return cr
@@ -399,6 +446,12 @@ func runDirOnce(d desc) dirRun {
 	cur := 0
 	var calls []*callRes
 	extra := 2*time.Millisecond + time.Duration(d.Batch)*time.Millisecond
+	dflav := func(i int) int {
+		if i < len(d.Flav) {
+			return d.Flav[i]
+		}
+		return 0
+	}
 	for _, o := range d.Ops {
 		if o.K != "adv" {
 			// still comfortably inside the current tick?
@@ -409,15 +462,19 @@ func runDirOnce(d desc) dirRun {
 		}
 		switch o.K {
 		case "call":
-			calls = append(calls, startCall(pc, "/c"+strconv.Itoa(len(calls)), true, t0.Add(time.Duration(o.N)*tick)))
+			calls = append(calls, startCall(pc, "/c"+strconv.Itoa(len(calls)), true, t0.Add(time.Duration(o.N)*tick), dflav(len(calls))))
 		case "do":
-			calls = append(calls, startCall(pc, "/c"+strconv.Itoa(len(calls)), false, time.Time{}))
+			calls = append(calls, startCall(pc, "/c"+strconv.Itoa(len(calls)), false, time.Time{}, dflav(len(calls))))
 		case "reply":
 			srv.reply(o.N)
 		case "close":
 			srv.closeCur()
 		case "finish":
 			srv.finish()
+		case "refuse":
+			srv.setRefuse(true)
+		case "accept":
+			srv.setRefuse(false)
 		case "adv":
 			if o.N > cur {
 				cur = o.N
@@ -470,6 +527,10 @@ func coqOps(ops []opD) string {
 			it = append(it, hlib.App("OAdvance", hlib.N(uint64(o.N))))
 		case "finish":
 			it = append(it, "OFinish")
+		case "refuse":
+			it = append(it, "ORefuse")
+		case "accept":
+			it = append(it, "OAccept")
 		}
 	}
 	return hlib.List(it)
@@ -517,7 +578,18 @@ func runStressOnce(d desc) (hlib.Case, time.Duration) {
 			srv.reply(1 << 20)
 		}
 		return c, err
-	}, MaxPendingRequests: d.Cap, MaxConns: d.Conns, Logger: nullLogger{}, MaxBatchDelay: time.Duration(d.Batch) * time.Millisecond}
+	}, MaxPendingRequests: d.Cap, MaxConns: d.Conns, Logger: nullLogger{}, MaxBatchDelay: time.Duration(d.Batch) * time.Millisecond,
+		ReadTimeout: time.Duration(d.RT) * time.Millisecond, WriteTimeout: time.Duration(d.WT) * time.Millisecond,
+		MaxIdleConnDuration: time.Duration(d.Idle) * time.Millisecond}
+	if d.Srv == "refuse" {
+		srv.setRefuse(true)
+	}
+	flav := func(i int) int {
+		if i < len(d.Flav) {
+			return d.Flav[i]
+		}
+		return 0
+	}
 	r := rand.New(rand.NewSource(d.Seed))
 	var calls []*callRes
 	maxpend := 0
@@ -540,10 +612,16 @@ func runStressOnce(d desc) (hlib.Case, time.Duration) {
 	}()
 	maxT := 0
 	for i, ms := range d.Calls {
-		if ms > 0 {
-			calls = append(calls, startCall(pc, "/s"+strconv.Itoa(i), true, time.Now().Add(time.Duration(ms)*time.Millisecond)))
-		} else {
-			calls = append(calls, startCall(pc, "/s"+strconv.Itoa(i), false, time.Time{}))
+		if d.Gap > 0 && i == len(d.Calls)/2 {
+			time.Sleep(time.Duration(d.Gap) * time.Millisecond) // idle retirement / reconnect throttling happen here
+		}
+		switch {
+		case ms > 0:
+			calls = append(calls, startCall(pc, "/s"+strconv.Itoa(i), true, time.Now().Add(time.Duration(ms)*time.Millisecond), flav(i)))
+		case ms < 0: // deadline already in the past
+			calls = append(calls, startCall(pc, "/s"+strconv.Itoa(i), true, time.Now().Add(time.Duration(ms)*time.Millisecond), flav(i)))
+		default:
+			calls = append(calls, startCall(pc, "/s"+strconv.Itoa(i), false, time.Time{}, flav(i)))
 		}
 		if ms > maxT {
 			maxT = ms
@@ -645,6 +723,12 @@ func genDir(r *rand.Rand) desc {
 				continue
 			}
 			dl := cur + 1 + r.Intn(2)
+			if r.Intn(12) == 0 {
+				dl = cur - r.Intn(2) // already reached when the call is made: ErrTimeout at once
+				if dl < 0 {
+					dl = 0
+				}
+			}
 			if dl > maxDl {
 				maxDl = dl
 			}
@@ -660,9 +744,14 @@ func genDir(r *rand.Rand) desc {
 			d.Ops = append(d.Ops, opD{K: "reply", N: 1 + r.Intn(3)})
 		case x == 8 && style >= 2:
 			d.Ops = append(d.Ops, opD{K: "close"})
+		case x == 9 && style == 3:
+			d.Ops = append(d.Ops, opD{K: hlib.Pick(r, []string{"refuse", "refuse", "accept"})})
 		default:
 			d.Ops = append(d.Ops, opD{K: "reply", N: 1})
 		}
+	}
+	for i := 0; i < calls; i++ {
+		d.Flav = append(d.Flav, hlib.Pick(r, []int{0, 0, 0, 0, 1, 2, 3}))
 	}
 	if r.Intn(2) == 0 {
 		// let every deadline pass long before the server wakes up: a caller that only returns when the server lets it is late by >= 2 ticks
@@ -675,17 +764,30 @@ func genDir(r *rand.Rand) desc {
 
 func genStress(r *rand.Rand) desc {
 	d := desc{Op: "stress", Cap: hlib.Pick(r, []int{1, 2, 4}), Conns: hlib.Pick(r, []int{1, 1, 2}),
-		Srv: hlib.Pick(r, []string{"stall", "stall", "slow", "closemid", "noread", "normal", "flaky"}), Seed: r.Int63()}
+		Srv: hlib.Pick(r, []string{"stall", "stall", "slow", "closemid", "noread", "normal", "flaky", "refuse", "garbage"}), Seed: r.Int63()}
 	if r.Intn(5) == 0 {
 		d.Batch = 2
 	}
+	switch r.Intn(8) {
+	case 0:
+		d.RT = 25 + r.Intn(30) // read timeouts: timeout error, 1 s reconnect throttle
+	case 1:
+		d.WT = 25 + r.Intn(30)
+	case 2:
+		d.Idle = 15 + r.Intn(20)
+		d.Gap = 60
+	}
 	n := 6 + r.Intn(16)
 	for i := 0; i < n; i++ {
-		if r.Intn(6) == 0 {
+		switch r.Intn(12) {
+		case 0, 1:
 			d.Calls = append(d.Calls, 0)
-		} else {
+		case 2:
+			d.Calls = append(d.Calls, -5) // deadline already passed
+		default:
 			d.Calls = append(d.Calls, 30+r.Intn(121))
 		}
+		d.Flav = append(d.Flav, hlib.Pick(r, []int{0, 0, 0, 1, 2, 3}))
 	}
 	return d
 }
@@ -744,6 +846,10 @@ func ops(s string) []opD {
 			out = append(out, opD{K: "adv", N: n})
 		case 'f':
 			out = append(out, opD{K: "finish"})
+		case 'R':
+			out = append(out, opD{K: "refuse"})
+		case 'A':
+			out = append(out, opD{K: "accept"})
 		}
 	}
 	return out
@@ -780,7 +886,30 @@ func corpus() []desc {
 	// returns" defect; the scheduler models the buffer)
 	dir(4, "d c1 d d a1 c3 a2 c3 d c4 a3 c4 a4 a6 f a7")
 	dir(2, "c9 c9 c9 c9 c1 a1 f a2 a3")
-	for _, srv := range []string{"stall", "slow", "closemid", "noread", "normal", "flaky"} {
+	// the server refuses connections: nothing is transmitted, queued calls time out, Do substitutes; then it accepts again
+	dir(2, "R c2 c2 c2 d c0 a1 A r1 a3 f a4")
+	dir(1, "R c1 c1 c1 a1 a2 f a3")
+	dir(2, "c2 r1 R x c3 c3 a1 c3 a2 A a3 f a4")
+	dir(1, "c1 R x c2 d d a1 a2 A r9 a3 f a4")
+	// deadline already reached at the call
+	dir(2, "c0 c0 a1 c1 c0 c2 r1 a2 f a3")
+	// call flavours: nil response object, POST with a body, HEAD
+	c = append(c, launch(desc{Op: "dir", Cap: 2, Ops: ops("c2 c2 c2 c2 r2 d d a1 r2 a2 f a3"), Flav: []int{1, 2, 3, 1, 2, 3}}))
+	c = append(c, launch(desc{Op: "dir", Cap: 1, Ops: ops("c2 c2 c2 c2 c2 d a2 x f a3"), Flav: []int{3, 2, 1, 1, 2, 3}}))
+	for _, srv := range []string{"stall", "normal"} {
+		// connection-level timeouts (timeout errors make pipelineWorker sleep 1 s before it redials), idle retirement between two bursts
+		for _, v := range []desc{{RT: 30}, {WT: 30}, {Idle: 20, Gap: 70}, {RT: 30, Idle: 20, Gap: 70}} {
+			d := v
+			d.Op, d.Cap, d.Conns, d.Srv, d.Seed = "stress", 2, 1, srv, 9
+			for i := 0; i < 14; i++ {
+				d.Calls = append(d.Calls, 30+(i*37)%120)
+				d.Flav = append(d.Flav, i%4)
+			}
+			d.Calls = append(d.Calls, -5, 0)
+			c = append(c, launch(d))
+		}
+	}
+	for _, srv := range []string{"stall", "slow", "closemid", "noread", "normal", "flaky", "refuse", "garbage"} {
 		for _, cp := range []int{1, 2, 4} {
 			d := desc{Op: "stress", Cap: cp, Conns: 1, Srv: srv, Seed: int64(cp)}
 			for i := 0; i < 14; i++ {
